@@ -741,6 +741,7 @@ class Facts:
     def build_index(self):
         """callee name -> crates that call it; written once per fact store."""
         idx = {}
+        fidx = {}
         for c in self.crates():
             names = set()
             with open(self.files[c]) as fh:
@@ -748,6 +749,8 @@ class Facts:
                     if not line.startswith('{"k":"body"'):
                         continue
                     r = json.loads(line)
+                    if r.get("file"):
+                        fidx.setdefault(r["file"], set()).add(c)
                     for b in r.get("blocks", []):
                         t = b["t"]
                         if t.get("k") == "call":
@@ -759,7 +762,21 @@ class Facts:
                 idx.setdefault(n, []).append(c)
         with open(os.path.join(self.dir, "calls.idx.json"), "w") as fh:
             json.dump(idx, fh)
+        with open(os.path.join(self.dir, "files.idx.json"), "w") as fh:
+            json.dump({k: sorted(v) for k, v in fidx.items()}, fh)
         return idx
+
+    _fidx = None
+
+    def file_index(self):
+        """source file -> crates that define bodies in it"""
+        if self._fidx is None:
+            p = os.path.join(self.dir, "files.idx.json")
+            if not os.path.exists(p):
+                self.build_index()
+            with open(p) as fh:
+                self._fidx = json.load(fh)
+        return self._fidx
 
     _idx = None
 
